@@ -136,8 +136,14 @@ def run(tier='quick'):
         else:
             chk.violation(Y1, 'detect_schema|column-role|%s' % c, locstr(vsite.node),
                           'column %s is read into version.%s, expected version.%s' % (c, role.get(c), m))
+    _tbl_strs = set()
+    for _p in vsite.sql_parts:
+        if not isinstance(_p, str):
+            for _x in program.walk_expanded(_p.node, f.node):
+                if _x.get('kind') == 'StringLiteral':
+                    _tbl_strs.add(decode_string_literal(_x.get('value')).lower())
     if (st.table or '').lower() != '${conditionaloperator}' and (st.table or '').lower() != 'information' \
-            and 'information' not in vsite.text.lower():
+            and 'information' not in vsite.text.lower() and not any('information' in z for z in _tbl_strs):
         chk.violation(Y1, 'detect_schema|table', locstr(vsite.node), 'version is not read from Information')
 
     # ---- candidate values: every case label, +-1, and far values ------------
@@ -593,7 +599,7 @@ def _variant(prog, chk, Y2, f):
         return None
 
     def is_marker(n):
-        for x in walk(n):
+        for x in program.walk_expanded(n, f.node):
             if x.get('kind') == 'CallExpr':
                 d, q, _, _ = prog.resolve_callee(f.tu, x)
                 if q and q.endswith('get_column_type'):
@@ -637,14 +643,21 @@ def _variant(prog, chk, Y2, f):
     co, init, neg, tn, fn = found[0]
     if neg:
         tn, fn = fn, tn
-    strs = [decode_string_literal(x['value']) for x in walk(init) if x.get('kind') == 'StringLiteral']
-    calls = [x for x in walk(init) if x.get('kind') == 'CallExpr']
+    xinit = list(program.walk_expanded(init, f.node))
+    strs = [decode_string_literal(x['value']) for x in xinit if x.get('kind') == 'StringLiteral']
+    # call arguments first, then the compared literal, whatever the order the sub-expressions are met in
+    _call_strs = [decode_string_literal(y['value']) for x in xinit if x.get('kind') == 'CallExpr'
+                  and (prog.resolve_callee(f.tu, x)[1] or '').endswith('get_column_type')
+                  for y in walk(x) if y.get('kind') == 'StringLiteral']
+    if len(_call_strs) == 2 and len(strs) == 3:
+        strs = _call_strs + [z for z in strs if z not in _call_strs][:1]
+    calls = [x for x in xinit if x.get('kind') == 'CallExpr']
     gq = None
     for x in calls:
         d, q, _, _ = prog.resolve_callee(f.tu, x)
         if q and q.endswith('get_column_type'):
             gq = x
-    ops = [x for x in walk(init) if x.get('kind') == 'CXXOperatorCallExpr']
+    ops = [x for x in xinit if x.get('kind') == 'CXXOperatorCallExpr']
     opname = None
     for x in ops:
         nm = (strip(children(x)[0]).get('referencedDecl') or {}).get('name')
@@ -695,7 +708,7 @@ def _variant(prog, chk, Y2, f):
                 if x.get('kind') == 'CXXOperatorCallExpr':
                     nm = (strip(children(x)[0]).get('referencedDecl') or {}).get('name')
                     refs = [(y.get('referencedDecl') or {}).get('id') for y in walk(x) if y.get('kind') == 'DeclRefExpr']
-                    if nm == 'operator==':
+                    if nm in ('operator==', 'operator!='):
                         cmp_ids.update(refs)
                     if nm == 'operator=':
                         asg_ids.update(refs)
